@@ -171,6 +171,44 @@ func (v *pduVolume) readone(data []byte, sched []int, o readObs) {
 	v.kernel = append(v.kernel, k)
 }
 
+// canonValueLine: the fields of a *PDU in the driver's text form
+func canonValueLine(p interface{}) string {
+	v := reflect.ValueOf(p).Elem()
+	fs := make([]string, v.NumField())
+	for i := range fs {
+		fs[i] = canonFieldLine(v.Field(i))
+	}
+	return strings.Join(fs, ";")
+}
+
+// marshal records one Marshal call: the value BEFORE the call (Marshal rewrites the header and
+// Prepare touches the short message) and what the implementation did.
+func (v *pduVolume) marshal(id uint32, valueLine, kernelTerm string, err error, panicked bool, w *recWriter) {
+	if len(valueLine) > 300000 {
+		return
+	}
+	res := "err"
+	want := "(Err EOther)"
+	switch {
+	case panicked:
+		res, want = "panic", "Panic"
+	case err == nil:
+		var frame []byte
+		for _, c := range w.calls {
+			frame = append(frame, c...)
+		}
+		res = "ok " + hexOrDash(frame)
+		want = "(Ok " + coqHex(frame) + ")"
+	}
+	v.ops = append(v.ops, fmt.Sprintf("marshal %d %s", id, valueLine))
+	v.obs = append(v.obs, res)
+	k := ""
+	if len(kernelTerm) < 6000 {
+		k = fmt.Sprintf("beq_obytes (marshal %s %s) %s", layoutRef(id), kernelTerm, want)
+	}
+	v.kernel = append(v.kernel, k)
+}
+
 func (v *pduVolume) remarshal(frame []byte, result string) {
 	v.ops = append(v.ops, "remarshal "+hexOrDash(frame))
 	v.obs = append(v.obs, result)
